@@ -9,9 +9,9 @@ git -C $W diff > /tmp/seed$R-$P.cur.diff
 go build ./... > /tmp/seed$R-$P.build.log 2>&1; b=$?
 go test -vet=off -count=1 ./amd/insts/ ./amd/kernels/ ./amd/bitops/ ./amd/emu/cdna3/ ./amd/timing/cp/internal/resource/ ./nvidia/... > /tmp/seed$R-$P.tests.log 2>&1; t=$?
 ( eval "$cmd" ) > /tmp/seed$R-$P.demo-with.log 2>&1; with=$?
-git stash -q
+git apply -R /tmp/seed$R-$P.cur.diff || exit 2
 ( eval "$cmd" ) > /tmp/seed$R-$P.demo-without.log 2>&1; without=$?
-git stash pop -q
+git apply /tmp/seed$R-$P.cur.diff || exit 2
 echo "build=$b demo_with_patch=$with demo_without_patch=$without existing_tests=$t"
 if [ $b -eq 0 ] && [ $with -ne 0 ] && [ $without -eq 0 ] && [ $t -eq 0 ]; then
   mkdir -p $D; cp $O/patch.diff $D/patch.diff; rm -rf $D/demo; cp -r $O/demo $D/demo
@@ -19,7 +19,7 @@ if [ $b -eq 0 ] && [ $with -ne 0 ] && [ $without -eq 0 ] && [ $t -eq 0 ]; then
 import json,sys
 P=sys.argv[1]; R=sys.argv[6]; D=sys.argv[7]
 m=json.load(open(f'/tmp/seed{R}-{P}-out/meta.json'))
-m['confirmed_by_lead']={"worktree":f"/tmp/seed{R}-{P} (scratch git worktree of /repo, removed afterwards)","go build ./...":"ok","demo with patch":"fails (exit %s)"%sys.argv[3],"demo without patch (git stash)":"passes","existing tests (amd/insts, amd/kernels, amd/bitops, amd/emu/cdna3, amd/timing/cp/internal/resource, nvidia/...) with patch":"pass"}
+m['confirmed_by_lead']={"worktree":f"/tmp/seed{R}-{P} (scratch git worktree of /repo, removed afterwards)","go build ./...":"ok","demo with patch":"fails (exit %s)"%sys.argv[3],"demo without patch (patch reverted)":"passes","existing tests (amd/insts, amd/kernels, amd/bitops, amd/emu/cdna3, amd/timing/cp/internal/resource, nvidia/...) with patch":"pass"}
 json.dump(m,open(D+'/meta.json','w'),indent=1)
 PY
   echo "stored in $D"
